@@ -365,6 +365,16 @@ func nonCapturing(expr string) string {
 			if i+1 < len(expr) {
 				i++
 				buf.WriteByte(expr[i])
+
+				// Everything between "\Q" and "\E" is literal text.
+				if expr[i] == 'Q' && !inClass {
+					end := strings.Index(expr[i+1:], `\E`)
+					if end < 0 {
+						end = len(expr) - i - 1
+					}
+					buf.WriteString(expr[i+1 : i+1+end])
+					i += end
+				}
 			}
 		case inClass:
 			inClass = c != ']'
